@@ -41,6 +41,11 @@ pub struct FbCase {
     /// just before build(); 0 = none (listeners observe, they must not change any outcome)
     #[serde(default)]
     pub listeners: u8,
+    /// "backup service failing" cells: the backup closure goes through a second, independent
+    /// fallback layer (from_error strategy) around the failing backup, so the backup's error is
+    /// turned into a response there and the outer call succeeds with it
+    #[serde(default)]
+    pub nested_backup: bool,
 }
 
 fn default_backup_code() -> u32 {
@@ -60,9 +65,9 @@ fn case_strategy(_tier: Tier) -> BoxedStrategy<FbCase> {
         any::<bool>(),
         prop::collection::vec((0u8..3, 0u8..3), 0..=3),
         prop_oneof![2 => Just(0u8), 1 => Just(1u8), 1 => Just(2u8)],
-        prop_oneof![2 => Just(0u8), 1 => 1u8..=3],
+        (prop_oneof![2 => Just(0u8), 1 => 1u8..=3], prop::bool::weighted(0.3)),
     )
-        .prop_map(|(req_id, req_key, req_tag, value_serial, code_a, code_b, lat, backup_code, handle_first, more_calls, group_mode, listeners)| FbCase {
+        .prop_map(|(req_id, req_key, req_tag, value_serial, code_a, code_b, lat, backup_code, handle_first, more_calls, group_mode, (listeners, nested_backup))| FbCase {
             req_id,
             req_key,
             req_tag,
@@ -75,6 +80,7 @@ fn case_strategy(_tier: Tier) -> BoxedStrategy<FbCase> {
             more_calls,
             group_mode,
             listeners,
+            nested_backup,
         })
         .boxed()
 }
@@ -97,6 +103,7 @@ const PREDICATES: [&str; 5] = [
 ];
 
 const BACKUP_BASE: u64 = 9_000_000;
+const NB_BASE: u64 = 70_000_000_000;
 const READY_SERIAL: u64 = 424_242;
 
 /// inner service whose poll_ready fails
@@ -220,6 +227,24 @@ async fn run_grid(case: &FbCase) -> (Vec<String>, usize, Vec<serde_json::Value>)
                             Resp {
                                 serial: FRE_BASE + e.code as u64 * 1000 + e.serial,
                                 req: r.clone(),
+                            }
+                        })
+                    }
+                    5 if case.nested_backup => {
+                        let second = FallbackLayer::<Req, Resp, SErr>::from_error(|e: &SErr| Resp {
+                            serial: NB_BASE + e.code as u64 * 1000 + e.serial,
+                            req: zero_req(),
+                        });
+                        let bk = second.layer(backup.clone());
+                        let inv = invoked.clone();
+                        b.service(move |r: Req| {
+                            inv.fetch_add(1, Ordering::SeqCst);
+                            let mut bk = bk.clone();
+                            async move {
+                                let _ = futures::future::poll_fn(|cx| bk.poll_ready(cx)).await;
+                                bk.call(r).await.map_err(|e| match e {
+                                    FallbackError::Inner(e) | FallbackError::FallbackFailed(e) => e,
+                                })
                             }
                         })
                     }
@@ -493,7 +518,12 @@ async fn run_grid(case: &FbCase) -> (Vec<String>, usize, Vec<serde_json::Value>)
                                 && r.serial == backup_enters[0].0
                                 && r.req == req
                         }
-                        (5, Err(FallbackError::FallbackFailed(e))) => {
+                        (5, Ok(r)) if case.nested_backup => {
+                            backup_enters.len() == 1
+                                && backup_enters[0].1 == req
+                                && r.serial == NB_BASE + backup_code as u64 * 1000 + backup_enters[0].0
+                        }
+                        (5, Err(FallbackError::FallbackFailed(e))) if !case.nested_backup => {
                             backup_enters.len() == 1
                                 && backup_enters[0].1 == req
                                 && e.code == backup_code
@@ -558,6 +588,9 @@ impl Property for C17 {
         r.class("full_grid_105_cells");
         if case.listeners != 0 {
             r.class("event_listeners_registered");
+        }
+        if case.nested_backup {
+            r.class("backup_goes_through_a_second_fallback_layer");
         }
         if !case.more_calls.is_empty() {
             r.class("several_calls_per_cell");
